@@ -72,10 +72,9 @@ Section Model.
   (* the denominator of the neuron's normalisation *)
   Definition neuro_den (wp' wi' wd' : T) : T := c_abs wp' + c_abs wi' + c_abs wd'.
 
-  Definition neuro_inc (n : neuro) (set f : T) : neuro :=
+  (* a_pid_neuro_inc_(ctx, fdb, err, ec) *)
+  Definition neuro_inc_ (n : neuro) (f e ec : T) : neuro :=
     let p := npid n in
-    let e := set - f in
-    let ec := e - err p in
     let v := ec - nec n in
     let o := e * out p in
     let wp' := wp n + kp p * o * nec n in
@@ -85,6 +84,11 @@ Section Model.
     let o2 := nk n * (wp' * ec + wi' * e + wd' * v) / den in
     {| npid := upd p (sum p) (sat o2 (outmin p) (outmax p)) v f e;
        nk := nk n; wp := wp'; wi := wi'; wd := wd'; nec := ec |}.
+
+  (* a_pid_neuro_inc(ctx, set, fdb): err = set - fdb; ec = err - ctx->pid.err *)
+  Definition neuro_inc (n : neuro) (set f : T) : neuro :=
+    let e := set - f in
+    neuro_inc_ n f e (e - err (npid n)).
 
   (* ------------------------------------------------------------ execution helpers for the correspondence run *)
   (* mode 0 run, 1 pos, 2 inc; 8 + mode: a_pid_zero first *)
